@@ -1,7 +1,290 @@
-(* Lemmas about the compliance-gate model (Model/Gate.v). *)
+(* Lemmas about the compliance-gate model (Model/Gate.v): the declarative
+   reading [follows] of the eleven rules and its equivalence with [gate]. *)
 From DV Require Import Model.Gate.
 From Coq Require Import List Bool Arith ZArith Lia.
 Import ListNotations.
 
+(* ------------------------------------------------------------ basics *)
 Lemma G_status_true r : status r = true <-> r = Some true.
 Proof. destruct r as [[|]|]; simpl; split; congruence. Qed.
+
+Lemma G_andr_true a b : andr a b = Some true <-> a = Some true /\ b = Some true.
+Proof.
+  destruct a as [[|]|], b as [[|]|]; simpl; split; intros; try tauto; try congruence;
+  destruct H; congruence.
+Qed.
+
+Lemma G_allr_true {A} (f : A -> res) l :
+  allr f l = Some true <-> Forall (fun x => f x = Some true) l.
+Proof.
+  induction l as [|x t IH]; simpl.
+  - split; auto.
+  - rewrite G_andr_true, IH. split.
+    + intros [H1 H2]. constructor; assumption.
+    + intros H. inversion H; subst. split; assumption.
+Qed.
+
+Lemma G_name_eqb_eq a b : name_eqb a b = true <-> a = b.
+Proof.
+  revert b. induction a as [|x a IH]; destruct b as [|y b]; simpl; split; intros H;
+  try reflexivity; try discriminate.
+  - apply andb_true_iff in H. destruct H as [H1 H2]. apply Nat.eqb_eq in H1.
+    apply IH in H2. subst. reflexivity.
+  - inversion H; subst. rewrite Nat.eqb_refl. simpl. apply IH. reflexivity.
+Qed.
+
+Lemma G_name_eqb_refl a : name_eqb a a = true.
+Proof. apply G_name_eqb_eq. reflexivity. Qed.
+
+Lemma G_name_eqb_neq a b : a <> b -> name_eqb a b = false.
+Proof.
+  intros H. destruct (name_eqb a b) eqn:E; [|reflexivity].
+  apply G_name_eqb_eq in E. contradiction.
+Qed.
+
+(* ------------------------------------------------- what a walk visits *)
+Definition alg_ok (c : cbs) (cb : alg -> res) (a : alg) : Prop :=
+  cb a = Some true /\
+  Forall (fun r => ifref c r = Some true) (a_fb a) /\
+  a_deps a <> None /\ Forall (fun r => ifref c r = Some true) (deps_of a) /\
+  a_svs a <> None /\
+  Forall (fun sv => ifsv c sv = Some true /\
+                    Forall (fun v => ifv c v = Some true) (s_items sv)) (svs_of a).
+
+Definition fac_ok (c : cbs) (k : kind) (cbb : bot -> res) (cba : alg -> res)
+           (o : option factory) : Prop :=
+  match o with
+  | None => True
+  | Some f => callable (walk_nargs k) (f_params f) = true /\ cbb (f_bot f) = Some true /\
+              Forall (alg_ok c cba) (b_algs (f_bot f))
+  end.
+
+Definition ev_ok (c : cbs) (o : option efactory) : Prop :=
+  match o with
+  | None => True
+  | Some e => callable 0 (ef_params e) = true /\
+              Forall (fun m => ifmom c m = Some true) (ef_events e)
+  end.
+
+Definition walk_ok (c : cbs) (p : package) : Prop :=
+  fac_ok c KAnalysis (ifanl c) (ifanz c) (p_analysis p) /\ ev_ok c (p_events p) /\
+  fac_ok c KRegress (ifret c) (ifrec c) (p_regress p) /\
+  fac_ok c KTask (ifbot c) (ifalg c) (p_task p).
+
+Lemma G_walk_alg_true c cb x :
+  walk_alg c cb (Some x) x = Some true <-> alg_ok c cb x.
+Proof.
+  unfold walk_alg, alg_ok, walk_refs, walk_svs, deps_of, svs_of.
+  rewrite !G_andr_true, G_allr_true.
+  destruct (a_deps x) as [ds|], (a_svs x) as [svs|]; simpl;
+    try (split; [intros (_ & _ & H & H'); discriminate
+                | intros (_ & _ & H1 & _ & H2 & _); congruence]).
+  rewrite !G_allr_true.
+  assert (Hsv : forall l, Forall (fun sv => andr (ifsv c sv) (allr (ifv c) (s_items sv)) = Some true) l
+                 <-> Forall (fun sv => ifsv c sv = Some true /\
+                           Forall (fun v => ifv c v = Some true) (s_items sv)) l).
+  { intros l. split; intros H; eapply Forall_impl; try exact H; intros sv Hs; cbv beta in *.
+    - apply G_andr_true in Hs. rewrite G_allr_true in Hs. exact Hs.
+    - apply G_andr_true. rewrite G_allr_true. exact Hs. }
+  rewrite Hsv. split.
+  - intros (H1 & H2 & H3 & H4). repeat split; try assumption; discriminate.
+  - intros (H1 & H2 & _ & H3 & _ & H4). repeat split; assumption.
+Qed.
+
+Lemma G_walk_algs_fst c cb l a :
+  fst (walk_algs c cb l a) = allr (fun x => walk_alg c cb (Some x) x) l.
+Proof.
+  revert a. induction l as [|x t IH]; intros a; simpl; [reflexivity|].
+  specialize (IH (Some x)). destruct (walk_algs c cb t (Some x)) as [r a']. simpl in *.
+  rewrite IH. reflexivity.
+Qed.
+
+Definition cur_rfb : option alg -> alg -> option alg := fun _ r => Some r.
+Definition kres (c : cbs) (p : package) (k : kind) : res := fst (walk_kind cur_rfb c p k None).
+
+Lemma G_walk_kind_fst c p k a : fst (walk_kind cur_rfb c p k a) = kres c p k.
+Proof.
+  unfold kres, walk_kind.
+  destruct (negb (has_kind p k)); [reflexivity|].
+  destruct (negb (callable (walk_nargs k) (params_of p k))); [reflexivity|].
+  destruct k.
+  - destruct (p_analysis p) as [f|]; [|reflexivity].
+    pose proof (G_walk_algs_fst c (ifanz c) (b_algs (f_bot f)) a) as H1.
+    pose proof (G_walk_algs_fst c (ifanz c) (b_algs (f_bot f)) None) as H2.
+    destruct (walk_algs c (ifanz c) (b_algs (f_bot f)) a).
+    destruct (walk_algs c (ifanz c) (b_algs (f_bot f)) None). simpl in *. congruence.
+  - destruct (p_events p); reflexivity.
+  - destruct (p_regress p); reflexivity.
+  - destruct (p_task p) as [f|]; [|reflexivity].
+    pose proof (G_walk_algs_fst c (ifalg c) (b_algs (f_bot f)) a) as H1.
+    pose proof (G_walk_algs_fst c (ifalg c) (b_algs (f_bot f)) None) as H2.
+    destruct (walk_algs c (ifalg c) (b_algs (f_bot f)) a).
+    destruct (walk_algs c (ifalg c) (b_algs (f_bot f)) None). simpl in *. congruence.
+Qed.
+
+Lemma G_walk_kinds c p ks a : walk_kinds cur_rfb c p ks a = allr (kres c p) ks.
+Proof.
+  revert a. induction ks as [|k t IH]; intros a; simpl; [reflexivity|].
+  pose proof (G_walk_kind_fst c p k a) as H.
+  destruct (walk_kind cur_rfb c p k a) as [r a']. simpl in H. subst r.
+  rewrite IH. destruct (kres c p k); reflexivity.
+Qed.
+
+Lemma G_kres_analysis c p :
+  kres c p KAnalysis = Some true <-> fac_ok c KAnalysis (ifanl c) (ifanz c) (p_analysis p).
+Proof.
+  unfold kres, walk_kind, has_kind, params_of, fac_ok. cbn [fac_of].
+  destruct (p_analysis p) as [f|]; cbn [negb fst]; [|tauto].
+  destruct (callable (walk_nargs KAnalysis) (f_params f)); cbn [negb fst].
+  - pose proof (G_walk_algs_fst c (ifanz c) (b_algs (f_bot f)) None) as H.
+    destruct (walk_algs c (ifanz c) (b_algs (f_bot f)) None). simpl in *. subst.
+    rewrite G_andr_true, G_allr_true.
+    assert (E : Forall (fun x => walk_alg c (ifanz c) (Some x) x = Some true) (b_algs (f_bot f))
+                <-> Forall (alg_ok c (ifanz c)) (b_algs (f_bot f))).
+    { split; intros H; eapply Forall_impl; try exact H; intros x; apply G_walk_alg_true. }
+    rewrite E. tauto.
+  - split; [discriminate|intros [H _]; discriminate].
+Qed.
+
+Lemma G_kres_task c p :
+  kres c p KTask = Some true <-> fac_ok c KTask (ifbot c) (ifalg c) (p_task p).
+Proof.
+  unfold kres, walk_kind, has_kind, params_of, fac_ok. cbn [fac_of].
+  destruct (p_task p) as [f|]; cbn [negb fst]; [|tauto].
+  destruct (callable (walk_nargs KTask) (f_params f)); cbn [negb fst].
+  - pose proof (G_walk_algs_fst c (ifalg c) (b_algs (f_bot f)) None) as H.
+    destruct (walk_algs c (ifalg c) (b_algs (f_bot f)) None). simpl in *. subst.
+    rewrite G_andr_true, G_allr_true.
+    assert (E : Forall (fun x => walk_alg c (ifalg c) (Some x) x = Some true) (b_algs (f_bot f))
+                <-> Forall (alg_ok c (ifalg c)) (b_algs (f_bot f))).
+    { split; intros H; eapply Forall_impl; try exact H; intros x; apply G_walk_alg_true. }
+    rewrite E. tauto.
+  - split; [discriminate|intros [H _]; discriminate].
+Qed.
+
+Lemma G_kres_regress c p :
+  kres c p KRegress = Some true <-> fac_ok c KRegress (ifret c) (ifrec c) (p_regress p).
+Proof.
+  unfold kres, walk_kind, has_kind, params_of, fac_ok, cur_rfb. cbn [fac_of].
+  destruct (p_regress p) as [f|]; cbn [negb fst]; [|tauto].
+  destruct (callable (walk_nargs KRegress) (f_params f)); cbn [negb fst].
+  - rewrite G_andr_true, G_allr_true.
+    assert (E : Forall (fun x => walk_alg c (ifrec c) (Some x) x = Some true) (b_algs (f_bot f))
+                <-> Forall (alg_ok c (ifrec c)) (b_algs (f_bot f))).
+    { split; intros H; eapply Forall_impl; try exact H; intros x; apply G_walk_alg_true. }
+    rewrite E. tauto.
+  - split; [discriminate|intros [H _]; discriminate].
+Qed.
+
+Lemma G_kres_events c p : kres c p KEvents = Some true <-> ev_ok c (p_events p).
+Proof.
+  unfold kres, walk_kind, has_kind, params_of, ev_ok.
+  destruct (p_events p) as [e|]; cbn [negb fst]; [|tauto].
+  destruct (callable (walk_nargs KEvents) (ef_params e)) eqn:E; cbn [negb fst];
+    simpl in E; rewrite E.
+  - rewrite G_allr_true. tauto.
+  - split; [discriminate|intros [H _]; discriminate].
+Qed.
+
+Lemma G_walk_true_iff c p : walk c p = Some true <-> walk_ok c p.
+Proof.
+  unfold walk, walk_with. fold cur_rfb. rewrite G_walk_kinds. unfold kinds, walk_ok.
+  cbn [allr]. rewrite !G_andr_true.
+  rewrite G_kres_analysis, G_kres_events, G_kres_regress, G_kres_task. tauto.
+Qed.
+
+(* ------------------------------------ the walk in terms of each_* *)
+Definition botcb (c : cbs) (k : kind) : bot -> res :=
+  match k with KAnalysis => ifanl c | KRegress => ifret c | _ => ifbot c end.
+Definition algcb (c : cbs) (k : kind) : alg -> res :=
+  match k with KAnalysis => ifanz c | KRegress => ifrec c | _ => ifalg c end.
+
+Definition facprop (c : cbs) (k : kind) (f : factory) : Prop :=
+  callable (walk_nargs k) (f_params f) = true /\ botcb c k (f_bot f) = Some true /\
+  forall a, In a (b_algs (f_bot f)) ->
+    algcb c k a = Some true /\ a_deps a <> None /\ a_svs a <> None /\
+    (forall r, In r (refs_of a) -> ifref c r = Some true) /\
+    (forall sv, In sv (svs_of a) -> ifsv c sv = Some true /\
+       forall v, In v (s_items sv) -> ifv c v = Some true).
+
+Lemma G_fac_ok_prop c k f :
+  fac_ok c k (botcb c k) (algcb c k) (Some f) <-> facprop c k f.
+Proof.
+  unfold fac_ok, facprop, alg_ok, refs_of. rewrite Forall_forall.
+  split; intros (H1 & H2 & H3); (split; [exact H1|split; [exact H2|]]); intros a Ha;
+    specialize (H3 a Ha).
+  - destruct H3 as (A1 & A2 & A3 & A4 & A5 & A6). rewrite Forall_forall in A2, A4, A6.
+    repeat split; try assumption.
+    + intros r Hr. apply in_app_iff in Hr. destruct Hr; auto.
+    + apply (A6 sv H).
+    + destruct (A6 sv H) as [_ Hv]. rewrite Forall_forall in Hv. exact Hv.
+  - destruct H3 as (A1 & A2 & A3 & A4 & A5). rewrite !Forall_forall.
+    repeat split; try assumption.
+    + intros r Hr. apply A4. apply in_app_iff. auto.
+    + intros r Hr. apply A4. apply in_app_iff. auto.
+    + intros sv Hs. split; [apply (A5 sv Hs)|]. rewrite Forall_forall. apply (A5 sv Hs).
+Qed.
+
+Definition walk_each (c : cbs) (p : package) : Prop :=
+  each_fac p (fun k f => callable (walk_nargs k) (f_params f) = true /\
+                         botcb c k (f_bot f) = Some true) /\
+  each_alg p (fun k a => algcb c k a = Some true /\ a_deps a <> None /\ a_svs a <> None) /\
+  each_ref p (fun r => ifref c r = Some true) /\
+  each_sv p (fun sv => ifsv c sv = Some true) /\
+  each_val p (fun v => ifv c v = Some true) /\
+  (forall e, p_events p = Some e -> callable 0 (ef_params e) = true) /\
+  each_event p (fun m => ifmom c m = Some true).
+
+Lemma G_walk_each c p : walk c p = Some true <-> walk_each c p.
+Proof.
+  rewrite G_walk_true_iff. unfold walk_ok, walk_each.
+  assert (F : (fac_ok c KAnalysis (ifanl c) (ifanz c) (p_analysis p) /\
+               fac_ok c KRegress (ifret c) (ifrec c) (p_regress p) /\
+               fac_ok c KTask (ifbot c) (ifalg c) (p_task p))
+              <-> forall k f, fac_of p k = Some f -> facprop c k f).
+  { split.
+    - intros (Ha & Hr & Ht) k f Hk. destruct k; simpl in Hk; try discriminate;
+        rewrite Hk in *; apply G_fac_ok_prop; assumption.
+    - intros H. repeat split.
+      + destruct (p_analysis p) as [f|] eqn:E; [|exact I].
+        apply (G_fac_ok_prop c KAnalysis). apply H. exact E.
+      + destruct (p_regress p) as [f|] eqn:E; [|exact I].
+        apply (G_fac_ok_prop c KRegress). apply H. exact E.
+      + destruct (p_task p) as [f|] eqn:E; [|exact I].
+        apply (G_fac_ok_prop c KTask). apply H. exact E. }
+  assert (Ev : ev_ok c (p_events p) <->
+               (forall e, p_events p = Some e -> callable 0 (ef_params e) = true) /\
+               each_event p (fun m => ifmom c m = Some true)).
+  { unfold ev_ok, each_event, events_of. destruct (p_events p) as [e|].
+    - rewrite Forall_forall. split.
+      + intros [H1 H2]. split; [intros e' He; inversion He; subst; exact H1|exact H2].
+      + intros [H1 H2]. split; [apply H1; reflexivity|exact H2].
+    - split; [intros _; split; [discriminate|intros e []]|auto]. }
+  unfold each_alg, each_ref, each_sv, each_val, each_alg, each_fac in *. unfold facprop in F.
+  split.
+  - intros (Ha & He & Hr & Ht). apply Ev in He. destruct He as [He1 He2].
+    assert (H := proj1 F (conj Ha (conj Hr Ht))). clear F Ev Ha Hr Ht.
+    repeat split; try assumption; intros.
+    + apply (H k f H0).
+    + apply (H k f H0).
+    + apply (H k f H0 a H1).
+    + apply (H k f H0 a H1).
+    + apply (H k f H0 a H1).
+    + apply (H k f H0 a H1). assumption.
+    + apply (H k f H0 a H1). assumption.
+    + apply (H k f H0 a H1 ). assumption. assumption.
+  - intros (H1 & H2 & H3 & H4 & H5 & H6 & H7).
+    assert (G : forall k f, fac_of p k = Some f ->
+      callable (walk_nargs k) (f_params f) = true /\ botcb c k (f_bot f) = Some true /\
+      (forall a, In a (b_algs (f_bot f)) ->
+         algcb c k a = Some true /\ a_deps a <> None /\ a_svs a <> None /\
+         (forall r, In r (refs_of a) -> ifref c r = Some true) /\
+         (forall sv, In sv (svs_of a) -> ifsv c sv = Some true /\
+            (forall v, In v (s_items sv) -> ifv c v = Some true)))).
+    { intros k f Hk. split; [apply (H1 k f Hk)|]. split; [apply (H1 k f Hk)|].
+      intros a Ha. split; [apply (H2 k f Hk a Ha)|]. split; [apply (H2 k f Hk a Ha)|].
+      split; [apply (H2 k f Hk a Ha)|]. split; [apply (H3 k f Hk a Ha)|].
+      intros sv Hs. split; [apply (H4 k f Hk a Ha sv Hs)|apply (H5 k f Hk a Ha sv Hs)]. }
+    apply F in G. destruct G as (Ga & Gr & Gt).
+    split; [exact Ga|]. split; [apply Ev; split; assumption|]. split; assumption.
+Qed.
